@@ -18,10 +18,14 @@
        the witness on the real code);
      * C04_clear_keeps_graph_input_defaults / C04_clear_without_guard_drops_default: the same for
        _clear_unused_initializers.
+     * C04_dce_preserves_signature / C04_cse_preserves_signature / C04_dce_keeps_input_initializers: the models of onnx_ir's
+       dead-node removal and common-subexpression elimination keep the graph's inputs and outputs; an initializer that is
+       a graph input (overridable default) or a graph output is never dropped as unused.
    Not proved: wf_graphb of the result from wf_graphb of the input (evaluated instead on every real output). *)
 From Coq Require Import List String ZArith Bool.
 Require Import OV.Graph.Syntax OV.Graph.Sem OV.Graph.Names OV.Gen.FoldTables.
 Require Import OV.Opt.Fold OV.Opt.SemLemmas OV.Opt.FoldProofs OV.Opt.FoldTheorems OV.Opt.Validity.
+Require Import OV.Opt.Dce OV.Opt.DceProofs OV.Opt.Cse OV.Opt.CseProofs.
 Import ListNotations.
 Local Open Scope list_scope.
 Local Open Scope string_scope.
@@ -88,3 +92,15 @@ Theorem C04_clear_without_guard_drops_default : clear_keeps_graph_inputs = false
     ~ In i (s_inits V (clear_unused_initializers V cfg st candidates)).
 Proof. exact (fun K V => clear_without_guard_drops_default V K). Qed.
 Print Assumptions C04_clear_without_guard_drops_default.
+
+Theorem C04_dce_preserves_signature : forall g, g_ins (dce g) = g_ins g /\ g_outs (dce g) = g_outs g.
+Proof. exact dce_signature. Qed.
+Print Assumptions C04_dce_preserves_signature.
+
+Theorem C04_dce_keeps_input_initializers : forall g x, In x (g_inits g) -> In x (g_ins g) \/ In x (g_outs g) -> In x (g_inits (dce g)).
+Proof. exact dce_keeps_input_initializers. Qed.
+Print Assumptions C04_dce_keeps_input_initializers.
+
+Theorem C04_cse_preserves_signature : forall g, g_ins (cse g) = g_ins g /\ g_outs (cse g) = g_outs g.
+Proof. exact cse_signature. Qed.
+Print Assumptions C04_cse_preserves_signature.
